@@ -121,9 +121,9 @@ def core1(leaves):
 def lattice(pattern, thorough):
     """Ordered, duplicate-free list of specs (simplest first).
     depth 0/1: every node kind over the full leaves.
-    depth 2 quick:    one child from depth1(mini leaves), siblings from the reduced leaves (mini leaves for 3-ary nodes)
-    depth 2 thorough: one child from depth1(reduced leaves), siblings from the reduced leaves, plus (2-ary nodes) one
-                      depth-1 tree per node kind"""
+    depth 2 quick:    one child from depth1(mini leaves), siblings from the reduced leaves (patterns: mini leaves for 3-ary nodes)
+    depth 2 thorough: one child from depth1(reduced leaves), siblings from the reduced leaves, plus (subjects, 2-ary nodes)
+                      one depth-1 tree per node kind"""
     full = leafsets(pattern, "full")
     red = leafsets(pattern, "red")
     mini = leafsets(pattern, "mini")
@@ -151,9 +151,9 @@ def lattice(pattern, thorough):
                 if i == pos:
                     continue
                 if thorough:
-                    pool = list(red[cw]) + (sib_core[cw] if len(cws) == 2 else [])
+                    pool = list(red[cw]) + (sib_core[cw] if len(cws) == 2 and not pattern else [])
                 else:
-                    pool = list(red[cw]) if len(cws) <= 2 else list(mini[cw])
+                    pool = list(red[cw]) if (len(cws) <= 2 or not pattern) else list(mini[cw])
                 sibs.append(pool)
             for d in d1_deep[cws[pos]]:
                 for sc in itertools.product(*sibs):
@@ -223,7 +223,7 @@ def diff_reason(p, s):
     if is_joker(p):
         return "joker-left-unbound"
     if p[0] != s[0]:
-        return "%s-vs-%s" % (KIND_NAME[p[0]], KIND_NAME[s[0]])
+        return "different-node-kinds"
     k = p[0]
     if k in ("int", "id", "loc"):
         return "%s:leaf-differs" % KIND_NAME[k]
